@@ -14,7 +14,7 @@ CONSTANTS
   AutoApprove = TRUE
   Opts = {"nooct"}
   ReportOnce = TRUE
-  MaxLevel = 13
+  MaxLevel = 11
   EmitJson = FALSE
   PruneOnlyOwned = FALSE
   AtomicPush = TRUE
